@@ -6,7 +6,7 @@ guard for the false-alarm policy of DESIGN §6.
 
   unparse     statement-wise ast.unparse of every module                      (sa/variants.global_twin_overlay)
   rename      consistent renaming of every local                               (sa/variants.global_rename_overlay)
-  flip        operands of ==, !=, is, is not swapped when both are side-effect free
+  flip        operands of ==, !=, is, is not swapped, < > <= >= mirrored, when both operands are side-effect free
   ifexp       `x = a if c else b` / `return a if c else b` turned into if statements
   extract     `if <test>:` -> `_t = <test>; if _t:`   and   `return <expr>` -> `_r = <expr>; return _r`
   inline      single-assignment locals used once, in the next statement, substituted into their use
@@ -30,11 +30,16 @@ def _pure(e: ast.AST) -> bool:
     return True
 
 
+_MIRROR = {ast.Lt: ast.Gt, ast.Gt: ast.Lt, ast.LtE: ast.GtE, ast.GtE: ast.LtE}
+
+
 class Flip(ast.NodeTransformer):
     def visit_Compare(self, n):
         self.generic_visit(n)
         if len(n.ops) == 1 and isinstance(n.ops[0], (ast.Eq, ast.NotEq, ast.Is, ast.IsNot)) and _pure(n.left) and _pure(n.comparators[0]):
             n.left, n.comparators = n.comparators[0], [n.left]
+        elif len(n.ops) == 1 and type(n.ops[0]) in _MIRROR and _pure(n.left) and _pure(n.comparators[0]):
+            n.left, n.comparators, n.ops = n.comparators[0], [n.left], [_MIRROR[type(n.ops[0])]()]
         return n
 
 
@@ -163,7 +168,7 @@ class Docstring(ast.NodeTransformer):
         extra = [] if has_doc else [ast.Expr(value=ast.Constant(value='Neutral twin docstring.'))]
         rest = fn.body[1:] if has_doc else fn.body
         head = fn.body[:1] if has_doc else extra
-        fn.body = head + [ast.Assert(test=ast.Constant(value=True), msg=None)] + rest
+        fn.body = head + [ast.Assert(test=ast.Compare(left=ast.Name(id='__name__', ctx=ast.Load()), ops=[ast.IsNot()], comparators=[ast.Constant(value=None)]), msg=None)] + rest
         return fn
 
 
